@@ -54,6 +54,7 @@ func underFastEnabled(in ssa.Instruction) bool {
 
 func checkC09(c *Ctx) {
 	l := c.L
+	checkIndexPurgeClosesIterator(c, "CONTRACT-purge-closes-iterator")
 	checkNoWriteUnderRangeIterator(c, "CONTRACT-no-write-under-iterator")
 	c.rule("PASS-root-record", "existence and identity of a version come from its stored root record, not from the node cache or the working tree", 2)
 	checkRootRecord(c, "PASS-root-record")
